@@ -19,7 +19,7 @@ package onevent
 //@ func setup$1
 //@   requires forall(k, 0, len(config), config[k] != nil)
 
-//@ unit hook_names props=C11 nilchecks=on filter=`onevent\.(onParse|setup|setup\$1)$`
+//@ unit hook_names props=C11,C08 nilchecks=on filter=`onevent\.(onParse|setup|setup\$1)$`
 //@ // C11 "no directive's setup panics": the process-global hook registry panics on an empty or an already registered name
 //@ // (casket.RegisterEventHook); every `on` line must therefore register under a name that was never used before, also when
 //@ // the same line occurs twice in a Casketfile or the file is loaded twice in one process.
